@@ -64,7 +64,8 @@ class P(Prop):
     RULE = ("all 112 abs_diff_eq / relative_eq impls (every polynomial, Log, IntOfLog, IntOfLogPoly4 and Segment of each) regenerated and "
             "proved number-by-number in Coq for all inputs; kernels, Piecewise (equal / different / prefix lengths) and PolyN run "
             "bit-exactly against the crate with tolerances {0, default, 1e-9, 1e-3, 0.5, 0.9, 1e300} chosen independently for epsilon "
-            "and max_relative, perturbing each single position just inside / outside each tolerance, infinities, signed zeros. "
+            "and max_relative, perturbing each single position just inside / outside each tolerance, infinities, NaN, signed zeros; every "
+            "piecewise value is also compared with itself (the same object). "
             "non-trivial = the two values differ in at least one number; distinct by input")
     TRUSTED = ["translator rs2coq (boolean fragment)", "transcription of approx 0.5.1's f64 AbsDiffEq / RelativeEq and slice rule"]
     ASSUMPTIONS = ["the external crate approx 0.5.1 behaves as transcribed (tied by correspondence)"]
@@ -88,6 +89,13 @@ class P(Prop):
             eps, rel = tolerances(rng)
             la = rng.randint(0, 6)
             sa = [[rng.uniform(-3, 3) for _ in range(n + 1)] for _ in range(la)]
+            if la and rng.random() < 0.25:
+                # open-ended last piece / a non-finite number somewhere: inf - inf is NaN, so such a value is not even
+                # abs_diff_eq to itself
+                if rng.random() < 0.6:
+                    sa[-1][0] = INF
+                else:
+                    sa[rng.randrange(la)][rng.randrange(n + 1)] = rng.choice([INF, -INF, float("nan")])
             shape = rng.choice(["same", "same", "prefix", "longer", "perturbed"])
             sb = [list(s) for s in sa]
             if shape == "prefix" and la > 0:
@@ -163,6 +171,13 @@ class P(Prop):
             same = len(fa) == len(fb)
             ea = same and all(abs_diff(x, y, eps) for x, y in zip(fa, fb))
             er = same and all(rel_eq(x, y, eps, rel) for x, y in zip(fa, fb))
+        if op == "approx_pw" and len(h["r"]) >= 5:
+            sa_ = all(abs_diff(x, x, eps) for s in fa for x in s)
+            sr_ = all(rel_eq(x, x, eps, rel) for s in fa for x in s)
+            if bool(h["r"][3]) != sa_:
+                return "Piecewise abs_diff_eq of a value with ITSELF = %s but number-by-number it is %s (eps=%r)" % (bool(h["r"][3]), sa_, eps)
+            if bool(h["r"][4]) != sr_:
+                return "Piecewise relative_eq of a value with ITSELF = %s but number-by-number it is %s" % (bool(h["r"][4]), sr_)
         if bool(h["r"][0]) != ea:
             return "%s abs_diff_eq = %s but number-by-number (with equal lengths) is %s" % (op, bool(h["r"][0]), ea)
         if bool(h["r"][1]) != er:
